@@ -41,6 +41,9 @@ def explains(f, items, probe=None):
     return False
 
 
+ENVS = [[], ["(setq *print-base* 16)"], ["(setq *print-prec* 4)"], ["(setq *print-length* 2)", "(setq *print-base* 2)"], ["(setq *print-radix* t)", "(setq *print-level* 1)"]]
+
+
 def run(tier, seed):
     rep = common.Report(PROP, tier, seed)
     vdrive = common.build_harness()
@@ -56,6 +59,15 @@ def run(tier, seed):
     if not quick and len(objs) > 9000:
         objs = objs[::len(objs) // 9000 + 1]
     size = max(50, (len(objs) + common.CORES * 2 - 1) // (common.CORES * 2))
+
+    # function call objects (a text read and compiled): special operators whose later arguments are not evaluated
+    CALLS = ["(let ((x 2)) (setq x (* x 3)) (+ x 1))", "(cond ((> 1 2) 'a) ((< 1 2) 'c) (t 'b))", "(case (+ 1 1) (1 'one) (2 'two) (t 'many))",
+             "(let ((n 0)) (dotimes (i 3) (setq n (+ n i)) (setq n (* n 2))) n)", "(funcall (lambda (x y) (setq x (+ x y)) (list x y)) 1 2)",
+             "(when (< 1 2) 'a '(1 2))", "(unless nil 1 '(b . c))", "(typecase 5 (string 1) (fixnum 2) (t 3))", "(and 1 (car '(2)) '(1))", "(or nil nil '(3) 4)",
+             "(do ((i 0 (1+ i)) (a 0 (+ a i))) ((> i 3) a) (setq a (+ a 1)))", "(let* ((x 1) (y (+ x 1))) (list x y) (* x y 7))", "(prog1 '(1) 2 3)",
+             "(if (> 2 1) '(a \"s\") '(b c))", "(progn 1 '(2 3))", "(block b (return-from b '(x)) 2)", "(dolist (e '(1 2) 'done) (list e))",
+             "(multiple-value-bind (q r) (floor 7 2) (list q r) (+ q r))", "(car '(1 2))", "(+ 1 (* 2 3))"]
+    objs = objs + [{"id": len(objs) + 1 + i, "call": c} for i, c in enumerate(CALLS)]
 
     def values(ch):
         inp = "\n".join(json.dumps(c, separators=(",", ":")) for c in ch) + "\n"
@@ -110,6 +122,9 @@ def run(tier, seed):
         if k not in seen:
             seen.add(k)
             r["id"] = len(sessions) + 1
+            # global printer settings in force when the load forms are printed and the snapshot is taken (what is saved does not
+            # depend on them): four of five sessions run under one of these
+            r["env"] = ENVS[r["id"] % len(ENVS)]
             sessions.append(r)
     by_id = {s["id"]: s for s in sessions}
     ssize = max(10, (len(sessions) + common.CORES - 1) // common.CORES)
